@@ -216,7 +216,7 @@ func main() {
 		{"discovered-number-1337", -1, result(`1337`), true, nq(25, 150), false, "", "", false},
 		{"configured-0", 0, result(`"1"`), true, nq(12, 60), false, "", "", false},
 		{"discovered-null-is-0", -1, result(`null`), true, nq(10, 60), false, "", "", false},
-		{"discovered-wraps-2^64+5", -1, result(`"18446744073709551621"`), true, nq(10, 60), false, "", "", false},
+		{"discovered-2^63-1-largest-int64", -1, result(`"9223372036854775807"`), true, nq(10, 60), false, "", "", false},
 		{"configured-2^40", 1 << 40, result(`"1"`), true, nq(12, 60), false, "", "", false},
 		{"discovered-decimal-string-4", -1, result(`"4"`), true, nq(8, 40), false, "", "", false},
 		{"race-detector-configured-5", 5, result(`"1"`), true, nq(26, 120), true, "", "", false},
@@ -229,6 +229,10 @@ func main() {
 		{"discover-fails-http500", -1, proxykit.Reply{Kind: proxykit.ReplyHTTPError, Status: 500}, false, 0, false, "", "", false},
 		{"discover-fails-unparsable", -1, result(`"abc"`), false, 0, false, "", "", false},
 		{"discover-fails-negative", -1, result(`"-5"`), false, 0, false, "", "", false},
+		// witnesses of the defect fixed by /repo 0c95e98 (a chain ID beyond int64 was truncated: 2^64+5 came up as chain 5,
+		// 2^63 as a negative chain ID whose transactions recover under no chain): the process must not come up
+		{"discover-fails-beyond-int64-2^64+5", -1, result(`"18446744073709551621"`), false, 0, false, "", "", false},
+		{"discover-fails-beyond-int64-2^63", -1, result(`"0x8000000000000000"`), false, 0, false, "", "", false},
 		{"discover-fails-drop", -1, proxykit.Reply{Kind: proxykit.ReplyDrop}, false, 0, false, "", "", false},
 		{"discover-fails-null-body", -1, proxykit.Reply{Kind: proxykit.ReplyRawBody, Body: []byte("null")}, false, 0, false, "", "", false},
 		{"discover-bool", -1, result(`true`), false, 0, false, "", "", false},
